@@ -4,5 +4,9 @@
 id=$1; r=$2; wt=/tmp/wt-$id-$r; d=/verif/seeded/$id-$r
 mkdir -p $d && cp -r $wt/seed/* $d/
 git -C $wt diff --stat | tail -1
+# the worktree was made at an earlier commit: move the change onto the current one (the harness needs the current hooks)
+if [ "$(git -C $wt rev-parse HEAD)" != "$(git -C /repo rev-parse main)" ]; then
+  (cd $wt && git stash -q && git checkout -q --detach main && git stash pop -q) || echo "could not move the change to the current commit"
+fi
 /verif/scripts/try_seed_scratch.sh $id $wt quick > /tmp/scratch-$id-$r.log 2>&1
 tail -12 /tmp/scratch-$id-$r.log | cut -c1-600
